@@ -313,6 +313,21 @@ impl<'a> Gen<'a> {
                     es.push(("zz".to_string(), E::Int(1)));
                     tys.insert("zz".to_string(), Ty::Int);
                 }
+                // fields are written in any order (initialisers run in source order), and a name may be given twice
+                // (both initialisers run, the last one stays)
+                for i in (1..es.len()).rev() {
+                    let j = self.rng.below(i + 1);
+                    es.swap(i, j);
+                }
+                if !es.is_empty() && self.pct(12) {
+                    let k = self.rng.below(es.len());
+                    let name = es[k].0.clone();
+                    let t = self.rng.pick(&[Ty::Int, Ty::Str, Ty::Bool]).clone();
+                    let (dup, _) = self.expr(&t, depth.saturating_sub(1).min(1));
+                    let at = self.rng.below(k + 1);
+                    es.insert(at, (name, dup));
+                    self.tag("expr:struct-duplicate-field");
+                }
                 (E::Struct(es), Ty::Struct(tys))
             }
             Ty::Mut(inner) => {
